@@ -80,6 +80,13 @@ def check_iequiv(case, out):
         return
     others = range(len(dags)) if case["others"] == "all" else case["others"]
     out.evals = 0
+    # the immoralities the library lists are the parent pairs of the reference v-structures
+    imm = out.call("get_immoralities", ga.get_immoralities)
+    out.evals += 1
+    if imm is not RAISED:
+        want_imm = {tuple(sorted((LABELS[x], LABELS[y]))) for (ab, _c) in sa[1] for x, y in [tuple(ab)]}
+        if {tuple(sorted(p)) for p in imm} != want_imm:
+            out.fail("get_immoralities:mismatch", f"a={list(a)} got={sorted(imm)} want={sorted(want_imm)}")
     for j in others:
         b = dags[j]
         sb = OC.signature(n, b)
